@@ -258,7 +258,7 @@ func truthTableTracking(L *Loaded, start *ssa.BasicBlock, target ssa.Instruction
 			ids = append(ids, id)
 		}
 		sort.Strings(ids)
-		if len(ids) > 10 {
+		if len(ids) > 13 {
 			return nil, ids, "too many atoms"
 		}
 		var rows []tableRow
